@@ -22,6 +22,7 @@ import (
 	"fmt"
 	"os"
 	"path/filepath"
+	"regexp"
 	"sort"
 	"strings"
 	"sync"
@@ -332,6 +333,8 @@ func (s *c11CLIState) apply(r *hx.Rand) (sig, what string) {
 }
 
 // setModel asks the Lean model of migrateSetRun for the revision table after `migrate set [arg]`.
+var reSetCurrent = regexp.MustCompile(`Current version is (?:\x1b\[[0-9;]*m)*([^\s\x1b(]+)`)
+
 func (s *c11CLIState) setModel(db c11DB, arg *string) (errKind string, revs []string, err error) {
 	ld, err := migrate.NewLocalDir(filepath.Join(s.dir, "m"))
 	if err != nil {
@@ -395,6 +398,10 @@ func (s *c11CLIState) set(r *hx.Rand) (sig, what string) {
 	}
 	after := s.read()
 	ctx := fmt.Sprintf("`%s` on revisions %s -> %s", strings.Join(args, " "), db.revsText(), after.revsText())
+	// what the command itself reports as the current version
+	if m := reSetCurrent.FindStringSubmatch(o.Stdout); m != nil && m[1] != v {
+		return "set-reports-another-current-version", fmt.Sprintf("%s: the command prints %q", ctx, strings.TrimSpace(m[0]))
+	}
 	if merr == nil {
 		var got []string
 		for _, x := range after.revs {
@@ -586,6 +593,69 @@ func c11CLI(e *Env, pool *hx.Pool) {
 		e.Res.Count("c11cli:"+hxJSON(s.ops), true, dedup(tags)...)
 		mu.Unlock()
 	})
+}
+
+// c11CLIScripted: histories whose execution order is not the version order (a file added out of order and
+// applied with --exec-order non-linear), then `migrate set` back to an older version: the version the command
+// reports as current, `migrate status` and the pending files must agree.
+func c11CLIScripted(e *Env, pool *hx.Pool) {
+	for si, sc := range []struct {
+		first, late, then []string
+		set               string
+	}{
+		{[]string{"10", "30"}, []string{"20"}, []string{"40"}, "30"},
+		{[]string{"10", "40"}, []string{"20", "30"}, []string{"50"}, "40"},
+		{[]string{"10", "20", "50"}, []string{"30"}, []string{"60", "70"}, "50"},
+		{[]string{"10", "30"}, []string{"20"}, nil, "20"},
+	} {
+		s := &c11CLIState{e: e, pool: pool, dir: filepath.Join(e.Work, fmt.Sprintf("c11scripted-%d", si)), blocked: map[string]bool{}}
+		os.MkdirAll(s.dir, 0o755)
+		fail := func(sig, what string) {
+			e.Res.Violate("failing-input", sig, what+"\ncommands:\n  "+strings.Join(s.ops, "\n  "), "Props.C11 status/apply/set agree with Pending", c11Scn{Files: s.files, Ops: s.ops})
+		}
+		add := func(vs []string) {
+			for _, v := range vs {
+				s.files = append(s.files, c11File{V: v})
+				s.ops = append(s.ops, "add file "+v+"_f.sql")
+			}
+			s.writeDir()
+		}
+		ok := true
+		step := func(o cliOut, what string) {
+			if ok && o.Code != 0 {
+				fail("scripted-step-fails", fmt.Sprintf("%s fails: %s", what, trunc(o.Stderr+o.Stdout, 300)))
+				ok = false
+			}
+		}
+		add(sc.first)
+		step(s.atlas("migrate", "apply", "--tx-mode", "none"), "the first apply")
+		add(sc.late)
+		step(s.atlas("migrate", "apply", "--tx-mode", "none", "--exec-order", "non-linear"), "the non-linear apply")
+		if len(sc.then) > 0 {
+			add(sc.then)
+			step(s.atlas("migrate", "apply", "--tx-mode", "none", "--exec-order", "non-linear"), "the last apply")
+		}
+		e.Res.Count(fmt.Sprintf("c11cli-scripted:%d", si), true, "cli-op:set-after-non-linear-history")
+		if ok {
+			o := s.atlas("migrate", "set", sc.set)
+			step(o, "migrate set "+sc.set)
+			if m := reSetCurrent.FindStringSubmatch(o.Stdout); ok && m != nil && m[1] != sc.set {
+				fail("set-reports-another-current-version", fmt.Sprintf("`migrate set %s` prints %q", sc.set, strings.TrimSpace(m[0])))
+				ok = false
+			}
+		}
+		if ok {
+			if sig, what, _ := s.checkStatus(); sig != "" {
+				fail(sig, what)
+			} else {
+				so := s.atlas("migrate", "status", "--format", "{{ .Current }}")
+				if strings.TrimSpace(so.Stdout) != sc.set {
+					fail("set-current-wrong", fmt.Sprintf("after `migrate set %s` status reports Current=%q", sc.set, strings.TrimSpace(so.Stdout)))
+				}
+			}
+		}
+		os.RemoveAll(s.dir)
+	}
 }
 
 func dedup(xs []string) []string {
